@@ -11,7 +11,8 @@
 //!
 //! quick: boundaries +-3 of every field/type in every notation and field, 20 000 random spellings
 //! (up to 45 digits); thorough: every integer of [-70000, 140000] in every notation as a bare
-//! token and in every field (notation rotating with the value).
+//! token and in every field (each field sees every integer in half of the notations, alternating
+//! with the value).
 use super::parse::{lex_tree, parse_tree};
 use crate::ctx::{par_for, Ctx};
 use crate::rng::Rng;
@@ -158,7 +159,7 @@ pub fn run(ctx: &Ctx, _replay: Option<&str>) {
         check_reg(ctx, &format!("{}{digits}", if r.chance(1, 2) { 'R' } else { 'r' }), &digits); n_reg += 1;
     }
     // ---- random spellings, including magnitudes of up to 45 digits ----
-    for _ in 0..ctx.n(20_000, 300_000) {
+    for _ in 0..ctx.n(20_000, 1_000_000) {
         let k = r.below(NOTATIONS as u64) as usize;
         let lz = match r.below(6) { 0..=2 => 0, 3 => 1, 4 => r.below(4) as usize, _ => r.below(40) as usize };
         let sp = if r.chance(1, 4) {
@@ -195,7 +196,7 @@ pub fn run(ctx: &Ctx, _replay: Option<&str>) {
                     check_bare(ctx, Some(c), &sp);
                     // every field sees every integer; the notation rotates with the value
                     for (j, f) in FIELDS.iter().enumerate() {
-                        if (j + v.unsigned_abs() as usize) % 4 == rot % 4 { check_field(ctx, Some(c), f, &sp); }
+                        if (j + v.unsigned_abs() as usize + rot) % 2 == 0 { check_field(ctx, Some(c), f, &sp); }
                     }
                     rot += 1;
                 }
